@@ -58,6 +58,9 @@ class Recorder:
             recv = [a["line"] for a in f["anchors"] if a["kind"] == "KRecvStub"]
             self.by_key[(os.path.join(root, f["file"]), f["name"], f["firstlineno"])] = (
                 cname, {int(k): v for k, v in f["lines"].items()}, recv[0] if recv else None)
+            for h in f.get("helpers", []):      # private helpers the extractor read as part of this function
+                self.by_key.setdefault((os.path.join(root, f["file"]), h["name"], h["firstlineno"]),
+                                       (cname, {int(k): v for k, v in h["lines"].items()}, None))
 
     def reset(self):
         with self.lock:
@@ -640,6 +643,18 @@ def gen_scenario(rng, cfg):
     return {"cfg": cfg, "steps": steps}
 
 
+class WClient(rd.RawClient):
+    """RawClient that also keeps the header of the last message it read (rawdrv's parser drops the correlation id)"""
+    last_header = b""
+
+    def recv_msg(self, timeout=None):
+        timeout = self.timeout if timeout is None else timeout
+        st = self._fill(rd.HEADER, timeout)
+        if not st and self.buf[:4] == b"PYRO":
+            self.last_header = bytes(self.buf[:rd.HEADER])
+        return rd.RawClient.recv_msg(self, timeout)
+
+
 def patient(client, first=3.0, more=7.0, alive=None):
     """read one message; a machine under heavy load may be slow, which is not what the property is about: keep
     waiting for the outstanding answer before calling it missing — but not once the request loop is known to be dead"""
@@ -769,9 +784,10 @@ class Player:
         first, more, long = (3.0, 7.0, 6.0) if HANGS[0] < 2 else (2.0, 2.0, 3.0) if HANGS[0] < 5 else (1.0, 1.0, 1.5)
         stype = self.cfg["server"]
         self.opened = 1
-        w = rd.RawClient(srv.port, timeout=3.0)
+        w = WClient(srv.port, timeout=3.0)
         w.send(rd.connect_msg("t", "serpent"))
         m = patient(w, first, more)
+        foreign = set()      # correlation ids other connections put into their messages
         if not (isinstance(m, dict) and m.get("type") == protocol.MSG_CONNECTOK):
             viol.append(("witness-handshake-failed", "the witness could not connect to a fresh daemon: %r" % (m,)))
             self.stop(kill=True)
@@ -796,11 +812,19 @@ class Player:
             else:
                 viol.append(("witness-disconnected:" + stype, "%s got %s instead of a reply" % (what, r)))
 
+        def own_context(what, r):
+            # the witness never sends a correlation id: whatever id its answer carries must not be one another client chose
+            h = w.last_header
+            if isinstance(r, dict) and len(h) >= 36 and (r.get("flags", 0) & protocol.FLAGS_CORR_ID) and bytes(h[20:36]) in foreign:
+                viol.append(("witness-foreign-correlation-id:" + stype, "%s was answered under the correlation id %r that ANOTHER "
+                             "connection had sent in its message header" % (what, bytes(h[20:36]))))
+
         def wcall(x):
             wseq[0] = (wseq[0] + 1) % 65536
             wtouch()
             err = w.send(rd.invoke_msg("t", "echo", (x,), seq=wseq[0]))
             r = patient(w, first, more, srv.loop_alive)
+            own_context("witness call echo(%d)" % x, r)
             if err or not isinstance(r, dict):
                 noreply("witness call echo(%d)" % x, err or r)
             elif r.get("type") != protocol.MSG_RESULT or r.get("flags", 0) & protocol.FLAGS_EXCEPTION or r.get("seq") != wseq[0] \
@@ -928,7 +952,10 @@ class Player:
                 continue
             elif op == "send":
                 dist.append(st[3] if len(st) > 3 else "send")
-                clients[st[1]].send(bytes.fromhex(st[2]))
+                raw = bytes.fromhex(st[2])
+                if len(raw) >= 36 and any(raw[20:36]):
+                    foreign.add(raw[20:36])
+                clients[st[1]].send(raw)
             elif op in ("snext", "sclose"):
                 # consume items of / close the last item stream this client was given (DaemonObject methods)
                 sid = streams.get(st[1])
